@@ -154,6 +154,15 @@ def check(case, res):
                             'routine playing on the clock (%d)' % (i, op, root, [r for r in new if r != root], root)))
         # the clock re-schedules the woken routine iff it returned a number (int/float, not bool), at time + delta.
         # Only judged when the bodies made no calls during this op (they could have scheduled things themselves).
+        # a wait that hung registers the routine: the op returned 'hang' (only Condition.wait yields it) and the bodies made no
+        # calls (no signal/unhang could have emptied a list): the routine this op entered appears once more in the waiting lists
+        if root is not None and s['out'] == [0, 3] and s['cur'] == 0:
+            made_calls = any(e[1] == 3 for e in (res.get('log') or [])[prev.get('loglen', 0):s['loglen']])
+            cnt = lambda st_: sum(x['waiting'].count(root) for x in st_['cells'])
+            if not made_calls and cnt(s) != cnt(prev) + 1:
+                bad.append(('wait_enqueues', 'wait_registers_thread_player', i,
+                            'op %d %s: routine %d hung on a wait (returned \'hang\') but the waiting lists went from %s to %s: '
+                            'it was not registered' % (i, op, root, [x['waiting'] for x in prev['cells']], [x['waiting'] for x in s['cells']])))
         # the routine this op entered is Running for as long as any body code of this op executes: every stop / pause /
         # reset / next aimed at it from ANY routine nested below it must have been refused
         if root is not None:
